@@ -358,6 +358,9 @@ func generate(r *vh.Rng, thorough bool, rep *vh.Report) []*kase {
 	for i := 0; i < 1500*mult; i++ {
 		lines = append(lines, genN(r))
 	}
+	for i := 0; i < 2000*mult; i++ {
+		lines = append(lines, genH(r))
+	}
 	for i := 0; i < 500*mult; i++ {
 		lines = append(lines, genW(r, r.PickInt([]int{0, 1, 2, 3, 10, 50})))
 	}
